@@ -161,6 +161,7 @@ func (g *generator) generateCode(
 	responses, err := g.execPlugins(
 		ctx,
 		container,
+		baseOutDir,
 		pluginConfigs,
 		inputImage,
 		includeImportsOverride,
@@ -201,6 +202,7 @@ func (g *generator) generateCode(
 func (g *generator) execPlugins(
 	ctx context.Context,
 	container app.EnvStdioContainer,
+	baseOutDir string,
 	pluginConfigs []bufconfig.GeneratePluginConfig,
 	image bufimage.Image,
 	includeImportsOverride *bool,
@@ -314,7 +316,7 @@ func (g *generator) execPlugins(
 	); err != nil {
 		return nil, err
 	}
-	if err := validateResponses(responses, pluginConfigs); err != nil {
+	if err := validateResponses(responses, pluginConfigs, baseOutDir); err != nil {
 		return nil, err
 	}
 	if err := checkRequiredFeatures(g.logger, requiredFeatures, responses, pluginConfigs); err != nil {
@@ -454,6 +456,7 @@ func getPluginGenerationRequest(
 func validateResponses(
 	responses []*pluginpb.CodeGeneratorResponse,
 	pluginConfigs []bufconfig.GeneratePluginConfig,
+	baseOutDir string,
 ) error {
 	if len(responses) != len(pluginConfigs) {
 		return fmt.Errorf("unexpected number of responses: expected %d but got %d", len(pluginConfigs), len(responses))
@@ -464,14 +467,13 @@ func validateResponses(
 		if response == nil {
 			return fmt.Errorf("failed to create a response for %q", pluginConfig.Name())
 		}
-		pluginResponses = append(
-			pluginResponses,
-			bufprotoplugin.NewPluginResponse(
-				response,
-				pluginConfig.Name(),
-				pluginConfig.Out(),
-			),
+		pluginResponse := bufprotoplugin.NewPluginResponse(
+			response,
+			pluginConfig.Name(),
+			pluginConfig.Out(),
 		)
+		pluginResponse.BaseOutDir = baseOutDir
+		pluginResponses = append(pluginResponses, pluginResponse)
 	}
 	if err := bufprotoplugin.ValidatePluginResponses(pluginResponses); err != nil {
 		return err
